@@ -1,12 +1,16 @@
 (** Entry points used by the correspondence driver: one model, one correspondence
     predicate and one oracle per case family.  Definitions only. *)
-From TD Require Import Base.Prelude Base.Codec Model.Hist Spec.HistSpec.
+From TD Require Import Base.Prelude Base.Codec Model.Hist Spec.HistSpec Model.IterRun Spec.Ideal.
 
 (** case families (which harness runner produced the case) *)
 Definition FAM_HIST : N := 1.
+Definition FAM_ZST : N := 2.
+Definition FAM_ITER : N := 3.
 
 Definition model (fam : N) (inp : list N) : list N :=
   if (fam =? FAM_HIST)%N then hist_model inp
+  else if (fam =? FAM_ZST)%N then zst_model inp
+  else if (fam =? FAM_ITER)%N then iter_model inp
   else BAD_CASE.
 
 (** correspondence: the implementation's observation equals the model's prediction *)
@@ -19,4 +23,6 @@ Definition oracle (prop fam : N) (inp obs : list N) : bool :=
     if (prop =? 5)%N then oracle_ledger inp obs
     else if (prop =? 11)%N || (prop =? 12)%N then oracle_fault inp obs
     else oracle_hist_spec inp obs
+  else if (fam =? FAM_ZST)%N then oracle_zst inp obs
+  else if (fam =? FAM_ITER)%N then oracle_iter inp obs
   else false.
